@@ -308,6 +308,14 @@ class World(object):
                                       Projected3dROI(build_roi(r[5], r[6]), proj))
         if k == 'roind':
             return S.RoiSubsetStateNd([self.pick_cid(d, r[2], True), self.pick_cid(d, r[3], True)], build_roi(r[4], r[5]))
+        if k == 'roipix':
+            # a region drawn on two pixel axes of d (what an image viewer produces)
+            pix = d.pixel_component_ids
+            if d.ndim < 2:
+                return S.RangeSubsetState(r[5][0], r[5][0] + r[5][2], pix[0])
+            a1 = r[2] % d.ndim
+            a2 = (a1 + 1 + r[3] % (d.ndim - 1)) % d.ndim
+            return S.RoiSubsetStateNd([pix[a1], pix[a2]], build_roi(r[4], r[5]))
         raise ValueError(r)
 
     # -- delay windows (K2)
